@@ -305,12 +305,10 @@ func (tp *TableParser) parseCellParagraph(p paragraphXML) parsedParagraph {
 		parsed.Alignment = p.Properties.Justification.Val
 	}
 
-	// Extract text from runs
+	// Extract text from runs (text, symbols, tabs and breaks, like body paragraphs)
 	var textParts []string
 	for _, run := range p.Runs {
-		for _, t := range run.Text {
-			textParts = append(textParts, t.Value)
-		}
+		textParts = append(textParts, runText(run))
 	}
 	parsed.Text = strings.Join(textParts, "")
 
